@@ -1056,6 +1056,50 @@ def rule_completed_arrays(chk, prog, tier):
     r.exhaustive = False
 
 
+# ------------------------------------------------------------------ C05.e3 qualified array types
+
+def rule_qualified_arrays(chk, prog, tier):
+    r = chk.rule('C05.e3', 'a qualifier applied to an array type qualifies its elements (6.7.3p9): the parameter `const T x` with `typedef U T[n][m]`, and the value of a `const T` object, have the type `const U (*)[m]` - '
+                 'compatible with that type written directly, not with `U (*)[m]`', floor=8, oracle='C11 6.7.3p9, 6.7.6.3p7, 6.3.2.1p3')
+    ta = prog.require_func('typeadjust', 'type.c')
+    tc = prog.require_func('typecompatible', 'type.c')
+    dc = prog.require_func('decay', 'expr.c')
+    QC, QV = ev(prog, 'QUALCONST'), ev(prog, 'QUALVOLATILE')
+    for q, qn in ((QC, 'const'), (QV, 'volatile'), (QC | QV, 'const volatile')):
+        for depth in (2, 3):
+            for how in ('parameter', 'object'):
+                def runner(it):
+                    w = World(prog, it=it, target='x86_64-sysv')
+                    U = w.t('uint')
+                    def arr(el, n, qual=0):
+                        a = it.call('mkarraytype', [el, qual, n]); a.obj.f[('u', 'array', 'length')] = w.mkexpr('EXPRCONST', w.t('ulong'), u__constant__u=n); return a
+                    dims = [4, 5, 6][:depth]
+                    # typedef U T[4][5]([6])
+                    t = U
+                    for n in reversed(dims): t = arr(t, n)
+                    # the same with the qualifier written on the element: pointer to q U [5]([6])
+                    el = U; first = True
+                    for n in reversed(dims[1:]): el = arr(el, n, q if first else 0); first = False
+                    direct = w.mkptr(el, 0)
+                    plain = U; 
+                    for n in reversed(dims[1:]): plain = arr(plain, n)
+                    unq = w.mkptr(plain, 0)
+                    if how == 'parameter':
+                        tq = Obj('tq', 'local'); tq.f[()] = q
+                        got = it.call(ta, [t, Ptr(tq, ())])
+                    else:
+                        x = w.temp(t, 'x'); x.obj.f[('lvalue',)] = 1; x.obj.f[('qual',)] = q
+                        got = it.load(it.call(dc, [x]).obj, ('type',))
+                    return (bool(it.call(tc, [got, direct])), bool(it.call(tc, [direct, got])), bool(it.call(tc, [got, unq])), bool(it.call(tc, [unq, got])))
+                runs = explore(prog, runner, {}, max_runs=2, on_unsupported='keep')
+                key = 'qualified-array:%s %s of U[4][5]%s' % (qn, how, '[6]' if depth == 3 else '')
+                if len(runs) != 1 or runs[0].outcome != 'return':
+                    raise AnalysisBroken('%s: %s' % (key, [(x.outcome, x.detail) for x in runs][:2]))
+                r.instance(runs[0].value == (True, True, False, False), key, 'type.c:%s' % ta.get('line'),
+                           'must be compatible with `%s U (*)[5]...` (both orders) and not with `U (*)[5]...`; typecompatible says %s' % (qn, runs[0].value))
+    r.exhaustive = False
+
+
 # ------------------------------------------------------------------ C05.k generic selection
 
 def rule_generic(chk, prog, tier):
@@ -1427,6 +1471,7 @@ def run(chk, tier):
     chk.guard('C05.i', lambda: rule_specifiers(chk, prog, tier))
     chk.guard('C05.e', lambda: rule_compat(chk, prog, tier))
     chk.guard('C05.e2', lambda: rule_completed_arrays(chk, prog, tier))
+    chk.guard('C05.e3', lambda: rule_qualified_arrays(chk, prog, tier))
     chk.guard('C05.k', lambda: rule_generic(chk, prog, tier))
     chk.guard('C05.l', lambda: rule_indirection(chk, prog, tier))
     chk.guard('C05.m', lambda: rule_value_category(chk, prog, tier))
